@@ -35,7 +35,9 @@ var errNotEnoughValues = errors.New("not enough values for format string")
 //
 // It works by scanning the verbs in the format string and converting the
 // argument corresponding to this verb to the correct type, then calling Go's
-// fmt.Sprintf().
+// fmt.Sprintf().  Where fmt.Sprintf() doesn't do what C's printf() does (e.g.
+// integer verbs), the argument is formatted here and given to fmt.Sprintf() as
+// a string for the verb %s.
 //
 // It temporarily requires all the memory needed to store the formatted string,
 // but releases it before returning so the caller should require memory first
@@ -49,7 +51,8 @@ func Format(t *rt.Thread, format string, values []rt.Value) (string, error) {
 	j := 0
 	// Temporarily require memory for building the format string
 	tmpMem += t.RequireBytes(len(format))
-	outFormat := []byte(format)
+	outFormat := make([]byte, 0, len(format))
+	copied := 0 // format[:copied] has been dealt with in outFormat
 
 	// We require an amount of CPU proportional to the format string size
 	t.RequireCPU(uint64(len(format)))
@@ -57,10 +60,14 @@ OuterLoop:
 	for i := 0; i < len(format); i++ {
 		if format[i] == '%' {
 			var (
+				specStart    = i // index of the '%' starting the directive
 				start        = i + 1
 				arg          interface{}
 				length, prec int
 				foundDot     bool
+				flags        formatFlags
+				verb         byte // verb to use in outFormat, if not the same
+				formatted    bool // true if arg is the formatted directive
 			)
 		ArgLoop:
 			for i++; i < len(format); i++ {
@@ -77,7 +84,7 @@ OuterLoop:
 					}
 					arg = []byte{byte(n)}
 					tmpMem += t.RequireBytes(1)
-					outFormat[i] = 's'
+					verb = 's'
 					break ArgLoop
 				case 'b', 'd', 'o', 'x', 'X', 'U', 'i', 'u':
 					// integer verbs
@@ -88,25 +95,24 @@ OuterLoop:
 					if !ok {
 						return "", errors.New("invalid value for integer format")
 					}
-					tmpMem += t.RequireBytes(10)
 					switch format[i] {
-					case 'u':
-						// Unsigned int
-						arg = uint64(n)
-						outFormat[i] = 'd' // No 'u' verb in Go
-					case 'i':
-						// Signed int
+					case 'b', 'U':
+						// Not in C, left to Go
+						tmpMem += t.RequireBytes(10)
 						arg = int64(n)
-						outFormat[i] = 'd' // No 'i' verb in Go
-					case 'x', 'X':
-						arg = uint64(n) // Need to convert to unsigned
 					default:
-						arg = int64(n)
+						// Go departs from C in too many ways for these (sign
+						// of negative numbers for unsigned conversions, '#'
+						// flag, precision 0...)
+						s := formatInt(n, format[i], flags, length, prec, foundDot)
+						tmpMem += t.RequireBytes(len(s))
+						arg = s
+						formatted = true
 					}
 					break ArgLoop
 				case 'a', 'A':
 					// Hexadecimal float verbs
-					outFormat[i] += 'x' - 'a'
+					verb = format[i] + 'x' - 'a'
 					fallthrough
 				case 'e', 'E', 'f', 'F', 'g', 'G':
 					// float verbs
@@ -143,7 +149,7 @@ OuterLoop:
 					if s, ok := quote(v); ok {
 						tmpMem += t.RequireBytes(len(s))
 						arg = s
-						outFormat[i] = 's'
+						verb = 's'
 					} else {
 						return "", errors.New("no literal")
 					}
@@ -155,7 +161,7 @@ OuterLoop:
 					}
 					switch v := values[j]; v.Type() {
 					case rt.BoolType, rt.FloatType, rt.IntType, rt.NilType:
-						outFormat[i] = 's'
+						verb = 's'
 						arg = "(null)"
 					case rt.StringType:
 						// Here we have a problem.  C Lua has one single start
@@ -163,7 +169,7 @@ OuterLoop:
 						// slice, so we can't make the same guarantee.  Best
 						// effort: find the address of the start of the string
 						// and format it as a pointer.
-						outFormat[i] = 's'
+						verb = 's'
 						s := v.AsString()
 						ptr := *(*uintptr)(unsafe.Pointer(&s))
 						arg = fmt.Sprintf("0x%x", ptr)
@@ -186,6 +192,9 @@ OuterLoop:
 				case '.':
 					foundDot = true
 				case '0', '1', '2', '3', '4', '5', '6', '7', '8', '9':
+					if format[i] == '0' && !foundDot && length == 0 {
+						flags.zero = true
+					}
 					if foundDot {
 						prec = prec*10 + int(format[i]-'0')
 						if prec >= 100 {
@@ -197,8 +206,14 @@ OuterLoop:
 							return "", errors.New("precision too long")
 						}
 					}
-				case '+', '-', '#', ' ':
-					// flag characters
+				case '+':
+					flags.plus = true
+				case '-':
+					flags.minus = true
+				case '#':
+					flags.alt = true
+				case ' ':
+					flags.space = true
 				default:
 					// Unrecognised verbs
 					return "", errors.New("invalid format string")
@@ -210,8 +225,20 @@ OuterLoop:
 			}
 			args[j] = arg
 			j++
+			outFormat = append(outFormat, format[copied:specStart]...)
+			if formatted {
+				outFormat = append(outFormat, "%s"...)
+			} else {
+				if verb == 0 {
+					verb = format[i]
+				}
+				outFormat = append(outFormat, format[specStart:i]...)
+				outFormat = append(outFormat, verb)
+			}
+			copied = i + 1
 		}
 	}
+	outFormat = append(outFormat, format[copied:]...)
 	if j < len(args) {
 		args = args[:j]
 	}
@@ -265,4 +292,80 @@ func quote(v rt.Value) (string, bool) {
 	default:
 		return "", false
 	}
+}
+
+// formatFlags records the flags found in a directive of a format string.
+type formatFlags struct {
+	minus, plus, space, alt, zero bool
+}
+
+// formatInt formats n as C's printf would for the directive made of the given
+// flags, width and precision (which applies only if hasPrec is true), and of
+// one of the conversion specifiers d, i, u, o, x, X.
+func formatInt(n int64, verb byte, flags formatFlags, width, prec int, hasPrec bool) string {
+	var (
+		u              = uint64(n) // o, x, X and u take their argument as unsigned
+		sign, prefix   string
+		digits, zeroes string
+	)
+	switch verb {
+	case 'd', 'i':
+		switch {
+		case n < 0:
+			sign = "-"
+			u = -u
+		case flags.plus:
+			sign = "+"
+		case flags.space:
+			sign = " "
+		}
+		digits = strconv.FormatUint(u, 10)
+	case 'u':
+		digits = strconv.FormatUint(u, 10)
+	case 'o':
+		digits = strconv.FormatUint(u, 8)
+	case 'x':
+		digits = strconv.FormatUint(u, 16)
+	case 'X':
+		digits = strings.ToUpper(strconv.FormatUint(u, 16))
+	}
+	// The precision is the minimum number of digits.  That means no digits at
+	// all for 0 with a precision of 0.
+	if hasPrec && prec == 0 && u == 0 {
+		digits = ""
+	}
+	if prec > len(digits) {
+		zeroes = strings.Repeat("0", prec-len(digits))
+	}
+	if flags.alt {
+		switch verb {
+		case 'o':
+			// The first digit must be 0
+			if zeroes == "" && !strings.HasPrefix(digits, "0") {
+				zeroes = "0"
+			}
+		case 'x':
+			if u != 0 {
+				prefix = "0x"
+			}
+		case 'X':
+			if u != 0 {
+				prefix = "0X"
+			}
+		}
+	}
+	// Pad to the width
+	var padLeft, padRight string
+	if padding := width - len(sign) - len(prefix) - len(zeroes) - len(digits); padding > 0 {
+		switch {
+		case flags.minus:
+			padRight = strings.Repeat(" ", padding)
+		case flags.zero && !hasPrec:
+			// The zeroes go after the sign and prefix
+			zeroes += strings.Repeat("0", padding)
+		default:
+			padLeft = strings.Repeat(" ", padding)
+		}
+	}
+	return padLeft + sign + prefix + zeroes + digits + padRight
 }
